@@ -77,6 +77,10 @@ def run(F, rep, tier):
     offset_rule(F, rep)
     components_rule(F, rep)
     instants_rule(F, rep)
+    # the properties of a date-and-time (time offset, timezone) are those at the value's own date: its time component never reaches the zone-at-today operations (C13's R13.6)
+    import callgraph
+    from props import c13
+    c13.datetime_component_rule(F, callgraph.CallGraph(F), rep)
     # ---------------- comparison core (shared with C09)
     from props import c09
     c09.temporal_order_rule(F, rep)
